@@ -1,6 +1,6 @@
 use crate::{
     ast::{DataType, DataTypeMember, Struct, Variant},
-    attr::{ChildAttr, ChildParentsAttr, DataTypeAttrs, DataTypeInstruction, FallibleKind, GhostIdent, GhostsAttr, Kind, MemberAttrs, MemberInstruction, ParentAttr, TraitAttr, TraitAttrCore, TypeHint, TypePath, WhereAttr},
+    attr::{ChildAttr, ChildParentsAttr, ChildPath, DataTypeAttrs, DataTypeInstruction, FallibleKind, GhostIdent, GhostsAttr, Kind, MemberAttrs, MemberInstruction, ParentAttr, TraitAttr, TraitAttrCore, TypeHint, TypePath, WhereAttr},
 };
 use proc_macro2::Span;
 use quote::ToTokens;
@@ -391,6 +391,15 @@ fn validate_fields(input: &Struct, data_type_attrs: &DataTypeAttrs, data_type_at
         }
     }
 
+    // a struct-level ghost that is addressed to a nested struct ('path@name: ..') needs that struct's type just like a #[child(path)] member does
+    for (data_type_attr, kind) in data_type_attrs_by_kind.iter().filter(|(_, kind)| !kind.is_from() && !kind.is_into_existing()) {
+        if let Some(ghosts_attr) = data_type_attrs.ghosts_attr(&data_type_attr.ty, kind) {
+            for child_path in ghosts_attr.ghost_data.iter().filter_map(|x| x.child_path.as_ref()) {
+                check_child_path_errors(child_path, data_type_attrs, &data_type_attr.ty, errors)
+            }
+        }
+    }
+
     if !input.named_fields {
         for (data_type_attr, kind) in data_type_attrs_by_kind {
             if data_type_attr.quick_return.is_none() && data_type_attr.type_hint == TypeHint::Struct {
@@ -457,9 +466,13 @@ fn validate_variant_fields(input: &Variant, data_type_attrs: &DataTypeAttrs, _ty
 }
 
 fn check_child_errors(child_attr: &ChildAttr, struct_attrs: &DataTypeAttrs, tp: &TypePath, errors: &mut Errors) {
+    check_child_path_errors(&child_attr.child_path, struct_attrs, tp, errors)
+}
+
+fn check_child_path_errors(child_path: &ChildPath, struct_attrs: &DataTypeAttrs, tp: &TypePath, errors: &mut Errors) {
     let children_attr = struct_attrs.child_parents_attr(tp);
-    for (idx, _level) in child_attr.child_path.child_path.iter().enumerate() {
-        let path = child_attr.get_child_path_str(Some(idx));
+    for (idx, _level) in child_path.child_path.iter().enumerate() {
+        let path = child_path.get_child_path_str(Some(idx));
         match children_attr {
             Some(children_attr) => {
                 if !children_attr.child_parents.iter().any(|x| x.check_match(path)) {
